@@ -167,6 +167,25 @@ def binder_summaries(prog: Program, rep: Report):
             conds = "; ".join(T.show(cd)[:50] for cd in kwt[4])
             rep.violated("R10.1", c.qualname, f.loc, f"the caller's keywords are filtered before they are forwarded ({conds}): a keyword that fails the test is dropped silently, so a call Python would reject (unexpected keyword argument) is accepted -- bind(f)('1', c='3') returns instead of raising TypeError", detail="keywords-forwarded")
             continue
+        if pos is None:
+            # positional arguments paired off with a stored sequence of routines: zip() stops at the shorter operand, so on a
+            # binder that sees *all* positional arguments (no *args in the signature: Python accepts no more of them than
+            # there are parameters) the surplus ones are dropped instead of reaching the target, which would refuse them
+            pt = r[1][0]
+            if pt[0] == "call" and T.refname(pt[1]) == "builtins.tuple" and len(pt[2]) == 1:
+                pt = ("tuple", (("star", pt[2][0]),))
+            trunc = None
+            for part in pt[1] if pt[0] == "tuple" else ():
+                cpt = part[1] if part[0] == "star" else part
+                if cpt[0] == "comp" and len(cpt[3]) == 1:
+                    it = cpt[3][0][0]
+                    if it[0] == "call" and T.refname(it[1]) == "builtins.zip" and dict(it[3]).get("strict") != ("const", True):
+                        kinds = [_seg_source(a) for a in it[2]]
+                        if "all" in kinds and any(k is None for k in kinds):
+                            trunc = T.show(it)[:80]
+            if trunc:
+                rep.violated("R10.1", c.qualname, f.loc, f"the positional arguments are paired off with a stored sequence by `{trunc}`: zip() stops at the shorter operand, so positional arguments beyond the registered ones are dropped before the call -- bind(g)('1', 2, 'surplus') for `def g(a: int, b: str)` returns instead of raising TypeError (a call Python rejects must still be rejected)", detail="positional-truncated")
+                continue
         if pos is None or kw is None:
             rep.undecided("R10.1", c.qualname, f.loc, "binder expression outside the summary idiom set: " + T.show(r)[:300])
             continue
